@@ -93,12 +93,12 @@ Definition op_gas_free (g : gas_fn) (o : op) : bool :=
 
 Corollary step_gas_same g cfg e w o : op_gas_free g o = true -> step_gas g cfg e w o = step cfg e w o.
 Proof.
-  destruct o as [p tape lie| | | | | | | |p tape lie k]; [|reflexivity..|];
+  destruct o as [p tape lie| | | | | | | | |p tape lie k]; [|reflexivity..|];
     cbn [op_gas_free step_gas step]; intros H; rewrite recv_gas_same by exact H; reflexivity.
 Qed.
 
 Corollary step_no_gas cfg e w o : step_gas no_gas cfg e w o = step cfg e w o.
-Proof. apply step_gas_same. destruct o as [p tape lie| | | | | | | |p tape lie k]; [|reflexivity..|]; cbn [op_gas_free]; unfold pkt_gas_free;
+Proof. apply step_gas_same. destruct o as [p tape lie| | | | | | | | |p tape lie k]; [|reflexivity..|]; cbn [op_gas_free]; unfold pkt_gas_free;
   (destruct (pk_data p) as [|? ? ? ? [pl| |]]; try reflexivity; destruct (p_fwd pl) as [f|]; [|reflexivity];
    destruct (f_attrs f) as [[]|]; reflexivity).
 Qed.
